@@ -127,7 +127,7 @@ var checks = map[string]*Check{
 		LevelText:   "Every interleaving (within the deviation bound) of 2-3 concurrent walks of distinct machines over one compiled specification, and of walks with concurrent SetSpec calls on an UpdatableSpec, is executed on the real code; each walk must equal its solo result under exactly one version (never a version older than a completed SetSpec), the spec's deep snapshot must not change, and ThreadSanitizer must stay silent.",
 		LevelNote:   "Trusted: rt/sched; yield points are placed in actions and guards (the engine code between them runs atomically in a schedule); ThreadSanitizer covers the accesses in between. goja internals are not scheduling points.",
 		Assumptions: commonAssumptions},
-	"C17": {ID: "C17", Parts: []Part{{Harness: "mcrew", Func: "C17mcrew", Race: true}, {Harness: "sio", Func: "C17sio", Race: true}}, Category: "model_checking", QuickDeadline: 240, ThoroughDeadline: 1500, GoMaxProcs: 1,
+	"C17": {ID: "C17", Parts: []Part{{Harness: "mcrew", Func: "C17mcrew", Race: true}, {Harness: "mcrew", Func: "C17glue", Race: true}, {Harness: "sio", Func: "C17sio", Race: true}}, Category: "model_checking", QuickDeadline: 240, ThoroughDeadline: 1500, GoMaxProcs: 1,
 		Engine: "E2", DesignRef: "6/C17",
 		Technique:   "stateless schedule exploration (controlled cooperative scheduler over shimmed sync/time, virtual clock, DFS with deviation bounding) of the real timer implementations, with a per-id monitor automaton on every execution",
 		LevelText:   "For every short request scenario (requests before, during - from the firing handler - and after a firing) every schedule of requester, timer goroutines and timer-fire events within the deviation bound is executed on the real Timers code under a controlled scheduler with virtual time; a monitor checks at-most-once, never-early, never-after-successful-cancel, exactly-once at the end of time, pending-set equality and id reuse.",
